@@ -268,7 +268,7 @@ def run_check(prop_id, obls, tier, seed, args, t0):
         "violations": len(violations),
     }
     os.makedirs(os.path.join(HOME, "evidence"), exist_ok=True)
-    if not args.only:
+    if not args.only and not os.environ.get("VFW_NO_EVIDENCE"):
         with open(os.path.join(HOME, "evidence", f"{prop_id}.json"), "w") as f:
             json.dump(evidence, f, indent=1, sort_keys=True, default=str)
 
